@@ -191,9 +191,9 @@ def perm_one(run, model, fam, g, seed, feed=64):
         attempts = [0]
         orig = GU._permute_molecule
 
-        def counting(m):
+        def counting(m, *a, **kw):      # private helper: tolerate a changed signature, only count the calls
             attempts[0] += 1
-            return orig(m)
+            return orig(m, *a, **kw)
         GU._permute_molecule = counting
         try:
             r2 = GU.permute_molecule(g, seed)
